@@ -157,6 +157,8 @@ def main():
     run = Run(PID, tier)
     from harness.lie import touch_all as _touch_all
     _touch_all()        # first uses of the Lie API happen BEFORE the models are derived (see harness/lie.py)
+    from harness import history as _history      # derivation histories in fresh interpreters (spec/DeriveHistory.tla)
+    _history.run_models(run, tier, ("estimator:mrp:",))
     f = eqs()
     from harness import cas as _cas
     for _f in f.values():       # every estimator function once by position and by its documented argument names
